@@ -489,7 +489,8 @@ def isbuiltintype(
 @compat.cache
 def isstdlibtype(obj: type) -> compat.TypeIs[type[STDLibtypeT]]:
     if isoptionaltype(obj):
-        nargs = tp.get_args(obj)[:-1]
+        # The null member is not necessarily the last one (e.g., `None | T`).
+        nargs = (a for a in tp.get_args(obj) if a is not None and a is not type(None))
         return all(isstdlibtype(a) for a in nargs)
     if isuniontype(obj):
         args = tp.get_args(obj)
